@@ -278,6 +278,35 @@ def gen_case(rng, cid, dim, quick, exact, smooth=False, far_origin=False):
     return case
 
 
+def gen_find_case(rng, cid):
+    """node array with dyadic entries (so that x[0] - padding is exact in double precision), a padding, and values at
+    every decision boundary of find_index: ends, ends -/+ padding, one ulp either side, nodes, interior"""
+    n = rng.choice([2, 2, 3, 4, 5, 8, 13])
+    x = [dyadic(rng, -4, 4, 4)]
+    for _ in range(n - 1):
+        x.append(x[-1] + dyadic(rng, 0.0625, 2, 4))
+    pad = rng.choice([0.0, 0.0, dyadic(rng, 0.0625, 2, 4), 2.0 ** -30, 64.0])
+    vs = []
+    for b in (x[0], x[-1], x[0] - pad, x[-1] + pad):
+        vs += [b, float(np.nextafter(b, -np.inf)), float(np.nextafter(b, np.inf))]
+    vs += [x[0] - pad / 2, x[-1] + pad / 2, x[0] - pad - 1.0, x[-1] + pad + 1.0, 0.0, -0.0]
+    for _ in range(4):
+        k = rng.randrange(n)
+        vs += [x[k], float(np.nextafter(x[k], rng.choice([-np.inf, np.inf]))), dyadic(rng, x[0], x[-1], 10)]
+    return {"id": cid, "kind": "find", "dim": 1, "x": x, "pad": pad, "vs": vs, "pts": [], "pcls": [], "search_only": False,
+            "area": [x[0], x[-1]], "res": [1.0],
+            "fn": {"kind": "poly", "coeffs": [0.0]}, "fb": None, "nbe": False, "degcls": "find", "fbcls": "none"}
+
+
+def coq_find_case(case, out):
+    obs = []
+    for v, (kind, val) in zip(case["vs"], out["find"]):
+        if kind not in (0, 2) or (kind == 0 and not (isinstance(val, float) and math.isfinite(val))):
+            kind, val = 3, 0.0
+        obs.append("(%s, %s, %s)" % (qlit(v), zz(kind), qlit(val)))
+    return "check_find %s %s [%s]" % (nested_q(case["x"]), qlit(case["pad"]), "; ".join(obs))
+
+
 def gen_badform_case(rng, cid, dim):
     """argument forms the unchanged code rejects: the rejection is the expected outcome"""
     c = gen_case(rng, cid, dim, True, True)
@@ -386,11 +415,13 @@ def nested_q(c):
 
 
 def call_codes(call, p, node_index):
+    """per-axis code of a call argument: index of the node it equals, else -1 if it equals the evaluation point's own
+    coordinate, else -99.  Equality of values (0.0 == -0.0), as in the model, whose rationals have one zero."""
     codes = []
     for a, v in enumerate(call):
-        k = node_index[a].get(bits(v))
+        k = node_index[a].get(float(v))
         if k is None:
-            k = -1 if bits(v) == bits(p[a]) else -99
+            k = -1 if float(v) == float(p[a]) else -99
         codes.append(k)
     return codes
 
@@ -398,7 +429,7 @@ def call_codes(call, p, node_index):
 def coq_case(case, out):
     dim = case["dim"]
     axes = out["axes"]
-    node_index = [{bits(v): k for k, v in reversed(list(enumerate(ax)))} for ax in axes]
+    node_index = [{float(v): k for k, v in reversed(list(enumerate(ax)))} for ax in axes]
     steps = []
     for p, st in zip(case["pts"], out["steps"]):
         kind, val = st["kind"], st["value"]
@@ -510,6 +541,8 @@ def is_multiaffine(case):
 def judge_case(case, out, stats):
     """-> list of failures of the property's executable statement on this case"""
     fails = []
+    if case.get("kind") == "find":
+        return fails                  # a helper of the anchored file, not the property itself: tied by the correspondence only
     dim = case["dim"]
 
     def fail(claim, **kw):
@@ -709,6 +742,8 @@ def run(ctx):
             cases.append(gen_case(rng, len(cases), dim, quick, exact=(i % 4 != 3)))
     for i in range(n_ctor):
         cases.append(gen_ctor_case(rng, len(cases), 1 + i % 3))
+    for i in range(12 if quick else 200):
+        cases.append(gen_find_case(rng, len(cases)))
     n_coq_cases = len(cases)
     for i in range(6 if quick else 60):
         cases.append(gen_badform_case(rng, len(cases), 1 + i % 3))
@@ -754,6 +789,11 @@ def run(ctx):
     cost = []
     for c, o in zip(cases, outs):
         if c.get("search_only"):
+            continue
+        if c.get("kind") == "find":
+            texts.append(coq_find_case(c, o))
+            owners.append((c["id"], "find_index"))
+            cost.append(5)
             continue
         if o.get("ctor") == "ok":
             for t, a in coq_axis_cases(c, o):
@@ -842,6 +882,11 @@ def run(ctx):
     if diff and not strict_fails:
         for cid, what in diff[:3]:
             c = by_id[cid]
+            if c.get("kind") == "find":
+                ctx.violation("c14-diff:find_index", "utility.find_index with an extrapolation padding (observed through Interpolate1DLinear) "
+                              "disagrees with the model; the caching classes call it with padding 0 only, the executable property found "
+                              "no failing input", {"case": c, "correspondence": "coq/Gen/C14/cases_*.v"}, found=False)
+                continue
             ctx.violation("c14-diff:%dd:%s" % (c["dim"], what.rstrip("012")),
                           "model and implementation disagree (%s of a Caching%dD case: exception kind, calls to the wrapped "
                           "function, value, cached cells or node positions); the executable property found no failing input"
@@ -888,7 +933,8 @@ def run(ctx):
         dist["history_length"]["max"] = L if dist["history_length"]["max"] is None else max(L, dist["history_length"]["max"])
     dist.update({"evaluations_raising": err_steps, "evaluations_filling_a_cell": new_cell_steps,
                  "evaluations_on_cached_cell_or_direct": cached_cell_steps, "constructor_cases": n_ctor,
-                 "corpus_cases": n_corpus, "rejected_argument_form_cases": sum(1 for c in cases if c.get("expect_ctor")),
+                 "corpus_cases": n_corpus, "find_index_with_padding_cases": sum(1 for c in cases if c.get("kind") == "find"),
+                 "rejected_argument_form_cases": sum(1 for c in cases if c.get("expect_ctor")),
                  "far_origin_cases(search only, known finding)": sum(1 for c in cases if c.get("far_origin")),
                  "far_origin_accuracy_failures": n_far_fail,
                  "axes_with_ambiguous_node_count(excluded from the exact grid comparison)": n_ambiguous_axes, "smooth_function_cases(search only)": sum(1 for c in cases if c.get("search_only")),
